@@ -98,6 +98,16 @@ func (t *DestinationTask) Do(ctx context.Context, batch *Batch) error {
 		return cerrors.Errorf("failed to write %d records to destination: %w", len(positions), err)
 	}
 
+	// Resolve the active->physical index mapping ONCE, for the records that were
+	// actually written. A nack can change the active set: setFlagWithErr
+	// propagates it over a whole split run, including a member an earlier
+	// processor filtered, whose flag flips from Filter to Nack. Re-resolving
+	// "ackCount+i" against the changed mapping in a LATER Ack() chunk applied
+	// every following nack one record too early - a record the destination
+	// rejected was acked to the source and never reached the DLQ, while its
+	// neighbor was dead-lettered with the wrong error. See markBatchRecords.
+	activeIndices := batch.activeRecordIndices()
+
 	ackCount := 0
 	for range len(positions) {
 		acks, err := t.destination.Ack(ctx)
@@ -109,7 +119,7 @@ func (t *DestinationTask) Do(ctx context.Context, batch *Batch) error {
 			return cerrors.Errorf("failed to validate acks: %w", err)
 		}
 		t.metrics.Observe(records[ackCount:ackCount+len(acks)], start)
-		t.markBatchRecords(batch, ackCount, acks)
+		t.markBatchRecords(batch, activeIndices, ackCount, acks)
 
 		ackCount += len(acks)
 		if ackCount >= len(positions) {
@@ -157,10 +167,21 @@ func (t *DestinationTask) validateAcks(acks []connector.DestinationAck, position
 // index in chunk 1 — closing that would require resolving all physical
 // indices up front, before any mutation. Do not read this reversal as a
 // blanket guarantee against index shift across the whole batch.
-func (t *DestinationTask) markBatchRecords(b *Batch, from int, acks []connector.DestinationAck) {
+//
+// That cross-chunk shift turned out to be live (a nack propagated over a split
+// run flips a FILTERED member to Nack, which does mutate the active set), so
+// the indices ARE now resolved up front: activeIndices is the active->physical
+// mapping Do captured when it wrote the batch (nil if nothing was filtered),
+// and the nack is applied by physical index, independent of any nack applied
+// before it. The reversal is kept but no longer load-bearing.
+func (t *DestinationTask) markBatchRecords(b *Batch, activeIndices []int, from int, acks []connector.DestinationAck) {
 	for i := len(acks) - 1; i >= 0; i-- {
 		if acks[i].Error != nil {
-			b.Nack(from+i, acks[i].Error)
+			idx := from + i
+			if activeIndices != nil {
+				idx = activeIndices[idx]
+			}
+			b.nackAt(idx, acks[i].Error)
 		}
 	}
 }
